@@ -188,6 +188,21 @@ def bNum2 (f : Num → Num → Except Err Num) : Body := fun _ args =>
   | [.num x, .num y] => liftE (f x y) |>.map .num
   | _ => bad
 
+/-- the model refuses powers whose exact result would have millions of digits (Python computes or
+    hangs on them; both sides are outside the promptness clause) -/
+def hugePow (x y : Num) : Bool :=
+  match x, y with
+  | .flt _, _ | _, .flt _ | _, .frac _ => false
+  | _, .int k =>
+    let b := x.toRat
+    let bits := max b.num.natAbs.log2 b.den.log2 + 1
+    decide (k.natAbs * bits > 8000000)
+
+def bPow : Body := fun _ args =>
+  match args with
+  | [.num x, .num y] => if hugePow x y then .error (.unmodelled "huge power") else liftE (pyPow x y) |>.map .num
+  | _ => bad
+
 /-- `intify(operator.xx)` -/
 def bCmp (name : String) : Body := fun _ args =>
   match args with
@@ -233,14 +248,18 @@ def bNumComb (f : Num → Comb.Combinatoric → Except Err Comb.Combinatoric) : 
   | [.num a, .comb b] => liftE (f a b) |>.map .comb
   | _ => bad
 
+/-- largest factorial / binomial argument the model resolves (the code's loops are linear in it) -/
+def maxFactorial : Int := 200000
+
 def bChoose : Body := fun _ args =>
   match args with
-  | [.num (.int n), .num (.int k)] => .ok (ofCVal (Comb.lazyChoose n k))
+  | [.num (.int n), .num (.int k)] =>
+    if n > maxFactorial then .error (.unmodelled "huge binomial") else .ok (ofCVal (Comb.lazyChoose n k))
   | _ => bad
 
 def bFactorial : Body := fun _ args =>
   match args with
-  | [.num (.int n)] => .ok (ofCVal (Comb.lazyFactorial n))
+  | [.num (.int n)] => if n > maxFactorial then .error (.unmodelled "huge factorial") else .ok (ofCVal (Comb.lazyFactorial n))
   | _ => bad
 
 /-! #### quantities: `register_quantities_op(name, combiner, wrap)` -/
@@ -622,7 +641,7 @@ def BodyCode.run : BodyCode → Body
   | .trueDiv => bNum2 pyTrueDiv
   | .fracDiv => bFracDiv
   | .mod => bNum2 pyMod
-  | .pow => bNum2 pyPow
+  | .pow => bPow
   | .cmp name => bCmp name
   | .const k => fun _ _ => .ok (.num (.int k))
   | .fn1 f => bNum1 (Elementary.body f)
@@ -891,8 +910,12 @@ def ofQVal : Qty.QVal → Val
   | .num n => .num n
   | .qty m d => .qty m d
 
+/-- a unit exponent beyond this is outside the model (`unit.multiple ** exp` with a huge exponent) -/
+def hugeSig (s : Parser.UnitSig) : Bool := (s.units ++ s.inv).any (fun p => p.2.natAbs > 10000)
+
 /-- `make_quantity(magnitude, unit_signature)` -/
 def makeQuantity (v : Val) (sig : Parser.UnitSig) : R Val := do
+  if hugeSig sig then .error (.unmodelled "huge unit exponent") else
   match ← resolveLazy v with
   | .num x => liftE (Qty.makeQuantity Gen.Units.table (.num x) (toQSig sig)) |>.map ofQVal
   | _ => raise .eval
@@ -900,6 +923,7 @@ def makeQuantity (v : Val) (sig : Parser.UnitSig) : R Val := do
 /-- `convert_quantity(quantity, unit_sig)`: the signature is composed first, then the operand is
     required to be a Quantity of that dimension -/
 def convertQuantity (v : Val) (sig : Parser.UnitSig) : R Val :=
+  if hugeSig sig then .error (.unmodelled "huge unit exponent") else
   let q : Qty.QVal := match v with
     | .qty m d => .qty m d
     | _ => .num (.int 0)                  -- any non-quantity: EvalError after compose_units
@@ -1196,9 +1220,18 @@ def lexOutcome : Lexer.LexErr → Outcome
   | .unclosedInstant i => .lexErr "UnclosedInstantError" i
   | .outOfFuel => .unmodelled "lexer bound"
 
+/-- a literal `…e±ddddd…` with five or more exponent digits (the lexer would compute `10**exponent`) -/
+def hugeExponent : List Char → Bool
+  | [] => false
+  | c :: r =>
+    (c == 'e' &&
+      (let r' := match r with | '-' :: t => t | '+' :: t => t | t => t
+       decide ((r'.takeWhile Lexer.isDigit).length ≥ 5))) || hugeExponent r
+
 /-- `interpret.execute(s, env)` -/
 def runIn (env : Env) (s : List Char) : Env × Outcome :=
   if !s.all Lexer.inAlphabet then (env, .unmodelled "character outside the lexer model's alphabet") else
+  if hugeExponent s then (env, .unmodelled "huge literal exponent") else
   match Lexer.tokenise s with
   | .error e => (env, lexOutcome e)
   | .ok toks => runTokens env toks
